@@ -1017,10 +1017,18 @@ func (vc *VC) unop(x *ssa.UnOp, st *State) {
 	case token.MUL: // load
 		vc.nilCheckAddr(x.X, x.Pos())
 		t := x.Type()
+		// a captured variable that its defining function writes exactly once (and no closure writes) is a
+		// constant of this closure activation
+		if fv, ok := x.X.(*ssa.FreeVar); ok && !isStruct(t) && !isArray(t) {
+			if c, ok := vc.freeVarConst(fv, t); ok {
+				vc.setVal(x, c)
+				return
+			}
+		}
 		// a local variable cell written exactly once (before being captured by closures that only read
 		// it) always holds that value, whatever is called in between
 		if al, ok := x.X.(*ssa.Alloc); ok && !isStruct(t) && !isArray(t) {
-			if sv, ok := vc.constCell(al); ok {
+			if sv, ok := vc.constCellAt(al, x); ok {
 				if _, done := vc.vals[sv]; done || isConstLike(sv) {
 					vc.setVal(x, vc.val(sv).S)
 					return
@@ -1514,7 +1522,25 @@ func isConstLike(v ssa.Value) bool {
 // constCell: the single value ever stored into a local cell, if the cell is stored exactly once in its
 // function (in the entry block) and never by the closures that capture it, and its address does not
 // otherwise escape.
-func (vc *VC) constCell(al *ssa.Alloc) (ssa.Value, bool) {
+func (vc *VC) constCell(al *ssa.Alloc) (ssa.Value, bool) { return vc.constCellAt(al, nil) }
+
+// instrDominates: a is executed before b on every path reaching b.
+func instrDominates(a, b ssa.Instruction) bool {
+	if a.Block() == b.Block() {
+		for _, ins := range a.Block().Instrs {
+			if ins == a {
+				return true
+			}
+			if ins == b {
+				return false
+			}
+		}
+	}
+	return a.Block().Dominates(b.Block())
+}
+
+// constCellAt: as constCell, the single store being anywhere that dominates the instruction at.
+func (vc *VC) constCellAt(al *ssa.Alloc, at ssa.Instruction) (ssa.Value, bool) {
 	var stored ssa.Value
 	n := 0
 	for _, r := range *al.Referrers() {
@@ -1525,7 +1551,7 @@ func (vc *VC) constCell(al *ssa.Alloc) (ssa.Value, bool) {
 			}
 			n++
 			stored = u.Val
-			if u.Block() != al.Parent().Blocks[0] {
+			if u.Block() != al.Parent().Blocks[0] && (at == nil || !instrDominates(u, at)) {
 				return nil, false
 			}
 		case *ssa.UnOp, *ssa.DebugRef:
@@ -1583,4 +1609,83 @@ func containsWord(s, w string) bool {
 		}
 		i = j + 1
 	}
+}
+
+// freeVarConst: the constant standing for the content of a captured single-assignment variable.
+func (vc *VC) freeVarConst(fv *ssa.FreeVar, t types.Type) (string, bool) {
+	if c, ok := vc.fvConsts[fv.Name()]; ok {
+		return c, c != ""
+	}
+	ok := false
+	fn := vc.fn
+	if parent := fn.Parent(); parent != nil {
+		idx := -1
+		for i, f := range fn.FreeVars {
+			if f == fv {
+				idx = i
+			}
+		}
+		for _, b := range parent.Blocks {
+			for _, ins := range b.Instrs {
+				mc, isMC := ins.(*ssa.MakeClosure)
+				if !isMC || mc.Fn != ssa.Value(fn) || idx < 0 || idx >= len(mc.Bindings) {
+					continue
+				}
+				if al, isAl := mc.Bindings[idx].(*ssa.Alloc); isAl {
+					if singleStoreBefore(al, mc) {
+						ok = true
+					}
+				}
+			}
+		}
+	}
+	if !ok {
+		vc.fvConsts[fv.Name()] = ""
+		return "", false
+	}
+	n := vc.declare("fvc_"+mangle(fv.Name()), vc.sortOf(t))
+	vc.fvConsts[fv.Name()] = n
+	vc.facts = append(vc.facts, Fact{Seq: 0, Term: vc.typeInv(t, n, vc.entrySt), Kind: "assume"})
+	// the cell holds that value in the entry state as well
+	vc.facts = append(vc.facts, Fact{Seq: 0, Term: eq(vc.heapRead(vc.entrySt, cellKey(t), t, vc.val(fv).S), n), Kind: "assume"})
+	return n, true
+}
+
+// singleStoreBefore: the captured variable is assigned exactly once, before the closure mc is
+// created, and no closure assigns it: its content is a constant for every activation of mc.Fn.
+func singleStoreBefore(al *ssa.Alloc, mc *ssa.MakeClosure) bool {
+	var st *ssa.Store
+	for _, r := range *al.Referrers() {
+		switch u := r.(type) {
+		case *ssa.Store:
+			if u.Addr != ssa.Value(al) || st != nil {
+				return false
+			}
+			st = u
+		case *ssa.UnOp, *ssa.DebugRef:
+		case *ssa.MakeClosure:
+			fn := u.Fn.(*ssa.Function)
+			for i, b := range u.Bindings {
+				if b == ssa.Value(al) && !freeVarOnlyRead(fn, i, 0) {
+					return false
+				}
+			}
+		default:
+			return false
+		}
+	}
+	if st == nil {
+		return false
+	}
+	if st.Block() == mc.Block() {
+		for _, ins := range st.Block().Instrs {
+			if ins == ssa.Instruction(st) {
+				return true
+			}
+			if ins == ssa.Instruction(mc) {
+				return false
+			}
+		}
+	}
+	return st.Block().Dominates(mc.Block())
 }
